@@ -529,11 +529,31 @@ impl<S: Storage> Builder<S> {
             .register(id, span.clone(), output_row_counter.clone());
 
         let (tx, rx) = async_broadcast::broadcast(16);
+        #[cfg(feature = "verif")]
+        let verif_name = name.clone();
         let handle = tokio::task::Builder::default()
             .name(&format!("{id}.{name}"))
             .spawn(
                 async move {
+                    #[cfg(feature = "verif")]
+                    let mut verif_idx = 0usize;
                     while let Some(item) = stream.next().await {
+                        #[cfg(feature = "verif")]
+                        let verif_fault = crate::verif::fault(&verif_name, verif_idx, false);
+                        #[cfg(feature = "verif")]
+                        let item = match verif_fault {
+                            Some(crate::verif::Fault::Panic) => {
+                                panic!("verif: injected panic in {verif_name} at {verif_idx}")
+                            }
+                            Some(crate::verif::Fault::Error) => {
+                                Err(std::io::Error::other("verif: injected error").into())
+                            }
+                            None => item,
+                        };
+                        #[cfg(feature = "verif")]
+                        {
+                            verif_idx += 1;
+                        }
                         if let Ok(chunk) = &item {
                             output_row_counter.inc(chunk.cardinality() as _);
                         }
@@ -541,6 +561,24 @@ impl<S: Storage> Builder<S> {
                             // all receivers are dropped, stop the task.
                             return;
                         }
+                        #[cfg(feature = "verif")]
+                        if verif_fault.is_some() {
+                            return;
+                        }
+                    }
+                    #[cfg(feature = "verif")]
+                    match crate::verif::fault(&verif_name, verif_idx, true) {
+                        Some(crate::verif::Fault::Panic) => {
+                            panic!("verif: injected panic in {verif_name} at end")
+                        }
+                        Some(crate::verif::Fault::Error) => {
+                            let _ = tx
+                                .broadcast(Err(
+                                    std::io::Error::other("verif: injected error").into()
+                                ))
+                                .await;
+                        }
+                        None => {}
                     }
                 }
                 .instrument(tracing::info_span!("executor", id = usize::from(id), name))
